@@ -490,7 +490,9 @@ func (p *InlineParser) parse(source []byte, container *Block) []*Inline {
 
 					pos = span.End
 					plainStart = pos
-					if i := nodeIndexForPosition(state.unparsed[state.unparsedPos:], pos); i >= 0 {
+					// Continue in the unparsed node that holds the tag's last byte.
+					// (The tag may end exactly at the end of that node.)
+					if i := nodeIndexForPosition(state.unparsed[state.unparsedPos:], pos-1); i >= 0 {
 						state.unparsedPos += i
 					} else {
 						state.unparsedPos = len(state.unparsed)
